@@ -70,5 +70,19 @@ def main(tier, seed, replay=None):
         run.sample(repr(r), cap=6)
     run.extra["boundary_cross_product_pairs"] = nb
     run.extra["random_pairs"] = len(reqs) - nb
+    if tier == "thorough":
+        # Miri on a boundary-biased sample (about 0.1 s per request): UB is a violation, overflow panics are advisory
+        import random as _r
+        sample = _r.Random(seed).sample(reqs, min(len(reqs), 480))
+        ran, adv = 0, []
+        for res in kern.miri_parallel("C04", sample):
+            ran += res["ran"]
+            if res["error"]:
+                run.note("miri: " + res["error"])
+            for ub in res["ub"]:
+                run.record(Verdict("violated", "Miri reports undefined behaviour in a runtime kernel: " + ub.split("\n")[0][:120], {"report": ub}), {"miri": True}, key=None)
+            adv += res["mismatch"][:5]
+        run.extra["miri_requests_interpreted"] = ran
+        run.extra["miri_advisories"] = adv[:10]
     run.min_held = 1000
     return run.finish()
